@@ -56,6 +56,12 @@ ReadMethod(v) == SumBits([i \in 0..11 |-> Bit(v, PosOfM(i))], 11)
 ReadClass(v)  == SumBits([i \in 0..1  |-> Bit(v, PosOfC(i))], 1)
 ReadType(v)   == << ReadMethod(v), ReadClass(v) >>
 
+\* RFC 5389 s15 / s18.2: attribute types 0x0000-0x7FFF are comprehension-required, 0x8000-0xFFFF optional
+ComprehensionRequired(t) == t <= 32767
+ComprehensionOptional(t) == t >= 32768
+\* s6: the four message classes
+ClassName(c) == CASE c = 0 -> "request" [] c = 1 -> "indication" [] c = 2 -> "success response" [] c = 3 -> "error response"
+
 (* Properties of the layout itself, checked by TLC over the complete domain
    (StunTypeCheck.cfg): *)
 RoundTripMC == \A m \in Methods, c \in Classes : ReadType(TypeValue(m, c)) = << m, c >>
